@@ -925,6 +925,9 @@ func nonEmpty(objs []storage.Graph, ob jobs) []storage.Graph {
 }
 
 // batch sizes around powers of two and typical chunk sizes; batches repeat triples, so a small universe is enough
+// longChurn: number of operations of the long-lived wide histories (flag -longchurn, 0 = none)
+var longChurn = 0
+
 // bigMax caps the batch sizes (flag -bigmax)
 var bigMax = 5000
 
@@ -1177,6 +1180,9 @@ func genHistory(seed int64, idx int, maxops int, usize int, c02, c09 bool, uptoS
 	}
 	if wide {
 		nops = 16 + r.Intn(5)
+		if longChurn > 0 && idx%128 == 9 { // thorough: one graph object lives through tens of thousands of adds and removes
+			nops = longChurn
+		}
 	}
 	big := idx%8 == 5 // every eighth history alternates full adds and adversarial removes of 63 .. 4097 triples
 	if big {
@@ -1661,6 +1667,7 @@ func main() {
 	group := flag.Int("group", -1, "-mode exhaustive: only the histories starting with this operation, one digest per history")
 	file := flag.String("file", "", "case file for -mode replay")
 	flag.IntVar(&bigMax, "bigmax", 5000, "largest batch size used in the big-batch histories")
+	flag.IntVar(&longChurn, "longchurn", 0, "operations in the long-lived wide histories (every 128th history)")
 	neOnly := flag.Bool("ne", false, "-mode detail: only graph objects that hold triples (as the C09 digests)")
 	flag.Parse()
 	initVocabulary()
